@@ -527,9 +527,10 @@ class List(BlockToken):
                 break
 
         if matches:
-            # Only consider the last list item loose if there's more than one element
+            # Blank lines after the last block of the last list item do not make the list loose:
+            # they do not separate two items of this list.
             last_parse_buffer = matches[-1][0]
-            last_parse_buffer.loose = len(last_parse_buffer) > 1 and last_parse_buffer.loose
+            last_parse_buffer.loose = last_parse_buffer.loose_inside
 
         return matches
 
